@@ -146,6 +146,94 @@ def case(args):
     return out
 
 
+# -- a callee is re-versioned while stored results of its (pinned) callers stay valid ---------------------------------
+RV_EVENTS = ("call_mid", "call_top", "batch_top", "call_root", "bump_leaf", "reopen")
+
+
+def rv_case(args):
+    """One event history on the functions of fixtures/c10rv.py. After every event the dependency set of every stored,
+    still addressable call must be what the model of 'computed once, served afterwards' says - read from the running
+    backend and (filesystem) from a new backend object on the same directory."""
+    from .c15 import mk_backend, use
+    from ..fixtures import c10rv as fx
+
+    kind, order, hist = args
+    top_fn = fx.top_ml if order == "ml" else fx.top_lm
+    top = scratch_dir("c10rv")
+    out = {"evaluations": 1, "states": 1, "transitions": 0, "traces": 1, "violations": [], "outcomes": []}
+    try:
+        fx.set_leaf("1")
+        leaf_v = 1
+        b = mk_backend(kind, os.path.join(top, "s"))
+        use(b)
+        stored = {}  # (name, version) -> set of "name#version" (every function is called with the argument 1)
+        ver = lambda n: str(leaf_v) if n == "leaf" else "1"  # noqa
+
+        def call(n):
+            k = (n, ver(n))
+            if k not in stored:
+                deps = {"%s#%s" % k}
+                callees = {"leaf": [], "mid": ["leaf"], "top": ["mid", "leaf"] if order == "ml" else ["leaf", "mid"], "root": ["top"]}[n]
+                for c in callees:
+                    deps |= call(c)
+                stored[k] = deps
+            return stored[k]
+
+        def look(label):
+            fns = {"leaf": (fx.leaf, (1,)), "mid": (fx.mid, (1,)), "top": (top_fn, (1,)), "root": (fx.root, (1, order))}
+            for n, (f, a) in fns.items():
+                want = stored.get((n, ver(n)))
+                mm = f.memento(*a)
+                if want is None:
+                    if mm is not None:
+                        return ("ghost-record", "%s: %s(1) has a memento although it was never computed under its current version" % (label, n))
+                    continue
+                if mm is None:
+                    return ("no-memento", "%s: no memento for %s(1)" % (label, n))
+                got = {d.qualified_name.split(":")[-1].replace("top_ml", "top").replace("top_lm", "top") for d in mm.function_dependencies}
+                if got != want:
+                    how = "missing" if want - got else "extra"
+                    return ("dependencies-%s" % how, "%s: dependencies of %s(1): recorded %s, transitively invoked %s" % (label, n, sorted(got), sorted(want)))
+            return None
+
+        for i, ev in enumerate(hist):
+            out["transitions"] += 1
+            if ev == "call_mid":
+                fx.mid(1)
+                call("mid")
+            elif ev == "call_top":
+                top_fn(1)
+                call("top")
+            elif ev == "batch_top":
+                top_fn.call_batch([{"x": 1}])
+                call("top")
+            elif ev == "call_root":
+                fx.root(1, order)
+                call("root")
+            elif ev == "bump_leaf":
+                leaf_v += 1
+                fx.set_leaf(str(leaf_v))
+            elif ev == "reopen":
+                if kind == "mem":
+                    continue
+                b = mk_backend(kind, os.path.join(top, "s"))
+                use(b)
+            bad = look("after %s (running backend)" % ev)
+            if bad is None and kind != "mem" and i == len(hist) - 1:
+                use(mk_backend("fs", os.path.join(top, "s")))
+                bad = look("after %s (new backend object on the same directory)" % ev)
+            if bad:
+                sig = "reversioned-callee|%s|%s|%s" % (kind, ev, bad[0])
+                out["violations"].append((sig, bad[1] + "\nbackend=%s order=%s history=%s" % (kind, order, list(hist)),
+                                          {"rv": [kind, order, list(hist)]}))
+                break
+        out["outcomes"].append("rv|%s|%d" % (kind, len(stored)))
+    finally:
+        fx.set_leaf("1")
+        rm(top)
+    return out
+
+
 def run(ctx):
     thorough = ctx.tier == "thorough"
     maxlen = 3 if thorough else 2
@@ -184,6 +272,16 @@ def run(ctx):
     b = case(tasks[len(tasks) // 2])
     ctx.selfcheck("one case gives identical observations twice", a["violations"] == b["violations"] and a["transitions"] == b["transitions"])
     ctx.merge(pmap(case, tasks, chunksize=8))
+    rvd = 5 if thorough else 4
+    rvt = [(k, o, h) for k in ("mem", "fs", "fsc") for o in ("ml", "lm") for L in range(2, rvd + 1)
+           for h in itertools.product(RV_EVENTS, repeat=L) if "bump_leaf" in h and not (k == "mem" and "reopen" in h)]
+    ra, rb = rv_case(rvt[len(rvt) // 2]), rv_case(rvt[len(rvt) // 2])
+    ctx.selfcheck("one re-versioned-callee history gives identical observations twice", ra["violations"] == rb["violations"])
+    ctx.merge(pmap(rv_case, rvt, chunksize=16))
+    ctx.extra["reversioned_callee_histories"] = len(rvt)
+    ctx.rule += (" Re-versioned callee: all histories to length %d over %s on root -> top -> {mid (pinned) -> leaf, leaf}; leaf gets a new "
+                 "version while stored results of its callers stay valid; after every event the dependency set of every stored call, read from "
+                 "the running backend and from a new backend object, equals the versions invoked when it was computed." % (rvd, list(RV_EVENTS)))
     concurrent(ctx)
     ctx.extra["root_plans"] = len(plans)
     ctx.extra["cases"] = len(tasks)
@@ -235,6 +333,13 @@ def replay(ctx, art):
         print("observation:", token)
         print("REPLAY property=C10 result=%s" % (bad,))
         return 1 if bad else 0
+    if "rv" in art["artefact"]:
+        k, o, h = art["artefact"]["rv"]
+        r = rv_case((k, o, tuple(h)))
+        for v in r["violations"]:
+            print(v[0], "\n", v[1])
+        print("REPLAY property=C10 result=%s" % bool(r["violations"]))
+        return 1 if r["violations"] else 0
     c = art["artefact"]["case"]
     r = case((c[0], c[1], c[2], [tuple(p) for p in c[3]], c[4]))
     for v in r["violations"]:
